@@ -52,6 +52,8 @@ var lexPieces = []string{
 	"!~", "!", "<", "<=", ">", ">=", "+", "-", "*", "%", "|", ".", ",", ";", "(", ")", "[", "]", " ", "\t", "\n",
 	"\r\n", "\u0085", "\u00a0", "\u2003", "\u3000", "\ufeff", "\x00", "\xff", "\xc2", "\xe2\x80", "é", "日本", "#", "@", "{", "}",
 	"^", "&", "?", "\\", "~", "\x7f", "\ufffd",
+	// literals that end WITHOUT their closing quote after an escape, and escaped literals that may follow them
+	"'x\\ty\n", "\"C:\\\\logs\n", "\"one\\\n", "'q\\'r\n", "\"p\\tq\"", "'two\\n'", "\"C:\\\\logs\\\\app.log\"", "'A:\\\\' // 3.5'\n", "\"A:\\\\\" // x\"\n", "//\x00 c\n", "// c \x00",
 }
 
 func randomLexSource(maxPieces int) string {
